@@ -102,6 +102,11 @@ func decompress(source []byte) (dest []byte, err error) {
 	// compressed length and up to 256 times the compressed length (the LZ4 block format cannot expand by more
 	// than a factor of 255)
 	compressedLength := len(source)
+	if compressedLength == 1 && source[0] == 0 {
+		// an empty message is compressed to a single zero token (see Compress), which UncompressBlock rejects;
+		// DecompressWithLength handles the same case through the zero length prefix
+		return []byte{}, nil
+	}
 	var written int
 	for i := compressedLength * 2; i <= compressedLength*256; i *= 2 {
 		dest = make([]byte, i)
